@@ -98,6 +98,10 @@ func runC20(r *mc.Run) {
 		{"nil-header+nil-body", nil, nil},
 		{"empty-header+empty-body", map[string][]string{}, []byte{}},
 		{"header-with-empty-value+one-byte-body", map[string][]string{"": nil}, []byte{0}},
+		// header names are returned as the wrapped getter spelled them
+		{"lower-case-names", map[string][]string{"tcb-info-issuer-chain": {"chain"}, "request-id": {"1", "2"}}, []byte("body")},
+		{"two-spellings-of-one-name", map[string][]string{"Request-ID": {"a"}, "Request-Id": {"b"}, "REQUEST-ID": {"c"}}, []byte("body")},
+		{"odd-names+empty-value-lists", map[string][]string{"x-odd_name": {}, "Content-Type": nil, " Leading-Space": {""}}, []byte("body")},
 	}
 	// kinds of failure of the wrapped getter: whatever the error looks like, it is a failed attempt to be retried
 	type errKind struct {
@@ -232,7 +236,11 @@ func cloneHdr(h map[string][]string) map[string][]string {
 	}
 	out := map[string][]string{}
 	for k, v := range h {
-		out[k] = append([]string(nil), v...)
+		if v == nil {
+			out[k] = nil
+		} else {
+			out[k] = append([]string{}, v...)
+		}
 	}
 	return out
 }
